@@ -147,7 +147,7 @@ struct world {
     long long events = 0;
 
     // decodes the packets of a client write into a JSON list of type names (set by broker.hpp)
-    std::function<std::string(const std::string&, int, int)> summarize; // (bytes, conn, write id)
+    std::function<std::string(const std::string&, int, int, bool)> summarize; // (bytes, conn, write id, emit c_pkt events)
     // broker callbacks
     std::function<void(int /*conn*/, const std::string&)> on_client_bytes;
     std::function<void(int /*conn*/, int /*host*/)> on_conn_open;
@@ -511,8 +511,9 @@ public:
                 auto opid = w.next_op++;
                 int wid = w.next_wid++;
                 auto slot = asio::get_associated_cancellation_slot(handler);
-                { std::string pkl = w.summarize ? w.summarize(data, s.conn_id, wid) : std::string("[]");
+                { std::string pkl = w.summarize ? w.summarize(data, s.conn_id, wid, false) : std::string("[]");
                   jev("c_write").i("c", s.conn_id).i("w", wid).i("nb", (long long) data.size()).raw("pk", pkl); }
+                if (w.summarize) w.summarize(data, s.conn_id, wid, true);   // one c_pkt event per packet, after the c_write event
                 s.wr = pending_write { opid, std::move(handler), std::move(data), 0, wid };
                 if (slot.is_connected()) {
                     std::weak_ptr<stream_state> ws = _st;
